@@ -426,6 +426,10 @@ class Engine:
         if isinstance(ty, TSeq) and isinstance(v.ty, TSeq) and isinstance(ty.elem, TRef) and isinstance(v.ty.elem, TRef) \
                 and ty.elem.nullable == v.ty.elem.nullable:
             return V(ty, v.t)          # all references share one sort; the static class only guides lookups
+        if isinstance(ty, TTuple) and isinstance(v.ty, TPy) and v.ty.kind == 'pytuple' and len(v.t) == len(ty.elems):
+            # a tuple display with None among its elements: each element takes the declared element type
+            items = [self.coerce(a, b, st).t for a, b in zip(v.t, ty.elems)]
+            return V(ty, ty.mk(items))
         if isinstance(ty, TTuple) and isinstance(v.ty, TTuple) and len(ty.elems) == len(v.ty.elems):
             items = [self.coerce(V(a, v.ty.get(v.t, i)), b, st).t for i, (a, b) in enumerate(zip(v.ty.elems, ty.elems))]
             return V(ty, ty.mk(items))
@@ -533,6 +537,8 @@ class Engine:
                 return z3.Length(b.t) == 0
             if b.ty.elem is NONE:
                 return z3.Length(a.t) == 0
+            if isinstance(a.ty.elem, TRef) and isinstance(b.ty.elem, TRef):
+                return a.t == b.t        # all references share one sort; the static class of the elements does not matter for ==
         # different types: never equal in Python for the value types we support
         return z3.BoolVal(False)
 
